@@ -27,7 +27,18 @@ CASE_TYPE = "ffcase"
 
 EXISTS = [None, True, False, "dir", "file"]
 NAMES = ["a.txt", "sub/b.txt", "sub", "missing.txt", "nodir/x", "", "  a.txt  ", "decoy-only.txt", "both.txt", "ABS:a.txt", "ABS:missing",
-         ".", "sub/", "sub/../a.txt", "./a.txt", "../start/a.txt", "../cwd/decoy-only.txt", "a.txt/", "ABS:sub", "ABS:sub/b.txt"]
+         ".", "sub/", "sub/../a.txt", "./a.txt", "../start/a.txt", "../cwd/decoy-only.txt", "a.txt/", "ABS:sub", "ABS:sub/b.txt",
+         # leading dots and slashes are part of the name: "../x.json" is not "x.json", ".hidden.json" is not "hidden.json"
+         "../x.json", ".hidden.json", "..x.json", "./a", "././a", ".../a", "x.json", "hidden.json", "a", "./", ".."]
+# start directories given RELATIVE to the working directory of the process (root/cwd): "REL:<text as given to the field>"
+RELSD = ["REL:../start", "REL:./sub", "REL:sub", "REL:../start/sub", "REL:../x", "REL:.", "REL:..", "REL:../Up/../start"]
+
+
+def _sd(root, c):
+    sd = c.get("startdir")
+    if sd is None:
+        return None
+    return sd[4:] if sd.startswith("REL:") else os.path.join(root, sd)
 URLS = ["http://example.com", "https://example.com/a?b=c#d", "ftp://host/file", "example.com", "/relative/path", "http://", "://x",
         "mailto:user@example.com", "", "  http://example.com  ", "HTTP://EXAMPLE.COM", "http://[::1]:80/", "http://exa mple.com", "file:///etc/hosts"]
 
@@ -38,6 +49,10 @@ def generate(rng, tier):
         for sd in (None, "start"):
             for name in NAMES:
                 cases.append({"cls": "file", "exists": ex, "startdir": sd, "value": name, "strip": name != name.strip(), "src": "matrix"})
+    for sd in RELSD:
+        for name in ("a.txt", "sub/b.txt", "b.txt", "sub", "missing.txt", "decoy-only.txt", "../start/a.txt", "./a.txt", "ABS:a.txt", "", ".hidden.json"):
+            for ex in EXISTS:
+                cases.append({"cls": "file", "exists": ex, "startdir": sd, "value": name, "strip": False, "src": "matrix"})
     # FilenameField with an inherited string option: each option x start directory unset / set x relative / absolute names x modes
     for so in SOPTS:
         for sd in (None, "start", "Up"):
@@ -55,7 +70,7 @@ def generate(rng, tier):
         cases.append({"cls": "url", "value": v, "required": False, "strip": False, "src": "matrix"})
     for _ in range(100 if tier == "quick" else 3000):
         if rng.random() < 0.7:
-            cases.append({"cls": "file", "exists": rng.choice(EXISTS), "startdir": rng.choice([None, "start", "start/sub", "Up"]),
+            cases.append({"cls": "file", "exists": rng.choice(EXISTS), "startdir": rng.choice([None, "start", "start/sub", "Up"] + RELSD),
                           "value": rng.choice(NAMES + ["A.TXT", "Sub"]), "strip": rng.random() < 0.3,
                           "sopt": rng.choice(SOPTS) if rng.random() < 0.35 else None, "src": "random"})
         else:
@@ -136,10 +151,10 @@ def _tables(c, root, v, sd):
 
 def _layout(root):
     """start/ (the field's start directory) and cwd/ (where the process works) hold different entries under the same names"""
-    for d in ("start/sub", "cwd/sub", "home", "Up/sub"):
+    for d in ("start/sub", "cwd/sub", "home", "Up/sub", "start/..."):
         os.makedirs(os.path.join(root, d))
     for rel in ("start/a.txt", "start/sub/b.txt", "start/both.txt", "cwd/decoy-only.txt", "cwd/both.txt", "cwd/missing.txt", "home/home.txt",
-                "Up/a.txt", "Up/sub/b.txt"):
+                "Up/a.txt", "Up/sub/b.txt", "x.json", "start/.hidden.json", "start/..x.json", "start/a", "start/.../a", "cwd/sub/b.txt"):
         with open(os.path.join(root, rel), "w") as fp:
             fp.write(rel)
 
@@ -158,9 +173,9 @@ def impl(c):
         if isinstance(v, str) and v.startswith("ABS:"):
             v = os.path.join(root, "start", v[4:])
         out["value"] = v
-        c["_tab"] = _tables(c, root, v, None if c["cls"] != "file" or c["startdir"] is None else os.path.join(root, c["startdir"]))
+        c["_tab"] = _tables(c, root, v, None if c["cls"] != "file" else _sd(root, c))
         if c["cls"] == "file":
-            sd = None if c["startdir"] is None else os.path.join(root, c["startdir"])
+            sd = _sd(root, c)
             so = c.get("sopt")
             kw = {} if not so else {{"case": "transform_case", "min": "min_len", "max": "max_len", "regex": "regex", "choices": "choices"}[so[0]]: so[1]}
             mk = lambda: FilenameField(exists=c["exists"], startdir=sd, transform_strip=True if c["strip"] else None, **kw)   # noqa: E731
@@ -236,13 +251,16 @@ def _expect_file(c, obs):
     root = obs["root"]
     full = v
     if not os.path.isabs(v) and obs.get("startdir"):
-        full = os.path.abspath(os.path.join(obs["startdir"], os.path.join(root, "home", v[2:]) if v.startswith("~/") else v))
+        sd = obs["startdir"]
+        if not os.path.isabs(sd):           # a relative start directory is relative to the working directory of the process
+            sd = os.path.join(root, "cwd", sd)
+        full = os.path.normpath(os.path.join(sd, v))
     # what exists, decided from the layout (the directory tree is gone by now): relative to start/ or to cwd/
     base = full if os.path.isabs(full) else os.path.join(root, "cwd", full)
     rel = os.path.relpath(os.path.normpath(base), root)
     files = {"start/a.txt", "start/sub/b.txt", "start/both.txt", "cwd/decoy-only.txt", "cwd/both.txt", "cwd/missing.txt", "home/home.txt",
-             "Up/a.txt", "Up/sub/b.txt"}
-    dirs = {"start", "start/sub", "cwd", "cwd/sub", "home", ".", "Up", "Up/sub"}
+             "Up/a.txt", "Up/sub/b.txt", "x.json", "start/.hidden.json", "start/..x.json", "start/a", "start/.../a", "cwd/sub/b.txt"}
+    dirs = {"start", "start/sub", "cwd", "cwd/sub", "home", ".", "Up", "Up/sub", "start/..."}
     is_file, is_dir = rel in files, rel in dirs
     if base.endswith("/") and is_file:
         is_file = False
